@@ -379,6 +379,32 @@ func (c *lctx) expr(v ssa.Value) *bx {
 		if same && first != nil {
 			return first
 		}
+		// b := 0; if c { b = 1 }  — the 1/0 encoding of a boolean
+		if len(x.Edges) == 2 {
+			if d := x.Block().Idom(); d != nil {
+				if iff, ok := d.Instrs[len(d.Instrs)-1].(*ssa.If); ok && d.Succs[0] != d.Succs[1] {
+					vals := [2]int64{-1, -1} // value when the condition is true / false
+					for i, p := range x.Block().Preds {
+						k, isC := constInt(x.Edges[i])
+						if !isC {
+							break
+						}
+						side := -1
+						for sIdx, sb := range d.Succs {
+							if (p == d && sb == x.Block()) || (p != d && (sb == p || sb.Dominates(p)) && len(sb.Preds) == 1) {
+								side = sIdx
+							}
+						}
+						if side >= 0 {
+							vals[side] = k
+						}
+					}
+					if vals[0] == 1 && vals[1] == 0 {
+						return &bx{op: "bool", w: w, a: c.expr(iff.Cond)}
+					}
+				}
+			}
+		}
 	case *ssa.BinOp:
 		switch x.Op {
 		case token.SHR, token.SHL:
@@ -881,7 +907,7 @@ func (L *layouts) streamWriter(fn *ssa.Function) *wsum {
 				running = running.add(lpos{syms: []*bx{(&bx{op: "len", w: 64, signed: true, a: e}).norm()}})
 			default:
 				cal := com.StaticCallee()
-				if cal != nil && cal.Signature.Recv() != nil && len(com.Args) > 0 && com.Args[0] == ssa.Value(fn.Params[0]) && strings.HasPrefix(cal.Name(), "Write") {
+				if cal != nil && cal.Signature.Recv() != nil && len(com.Args) > 0 && com.Args[0] == ssa.Value(fn.Params[0]) && cal != fn && cal.Blocks != nil && inRepo(cal) {
 					sub := L.streamWriter(cal)
 					if sub.bad != "" {
 						s.bad = cal.Name() + ": " + sub.bad
@@ -967,6 +993,12 @@ func (s *wsum) canon() ([]string, string) {
 		}
 		root, lo := bitsOf(u.e, u.lo)
 		root = root.norm()
+		if root.op == "bool" && lo == 0 {
+			out = append(out, "bool("+root.a.render()+")")
+			cur = cur.addC(1)
+			i++
+			continue
+		}
 		if o := root.hasOpaque(); o != "" {
 			return nil, "stored value not understood: " + o
 		}
